@@ -24,6 +24,7 @@ def main():
     ap.add_argument("--tier", default="quick")
     ap.add_argument("--needs", default="")
     ap.add_argument("--what", default="")
+    ap.add_argument("--as", dest="as_letter", default=None, help="letter to store it under (default: same letter)")
     a = ap.parse_args()
     src = a.src or f"/tmp/mut/{a.prop}"
     patch = os.path.join(src, f"mut{a.letter}.diff")
@@ -31,7 +32,8 @@ def main():
     if not os.path.exists(patch) or not os.path.exists(demo):
         print("missing", patch, demo)
         return 2
-    dst = os.path.join(VERIF, "seeded", f"{a.prop}-{a.letter}")
+    store = a.as_letter or a.letter
+    dst = os.path.join(VERIF, "seeded", f"{a.prop}-{store}")
     os.makedirs(dst, exist_ok=True)
     shutil.copy(patch, os.path.join(dst, "patch.diff"))
     shutil.copy(demo, os.path.join(dst, "demo.py"))
@@ -53,7 +55,7 @@ def main():
         meta = json.load(open(meta_path))
     meta.update(
         {
-            "id": f"{a.prop}-{a.letter}",
+            "id": f"{a.prop}-{store}",
             "breaks_property": a.prop,
             "origin": "independent sub-agent given only the property text and a scratch worktree",
             "confirmed": ok,
